@@ -41,7 +41,8 @@ add('C01', 'guard-plus-2', PGF, GUARD_FC, GUARD_FC.replace("== parent_index +1",
 add('C01', 'guard-as-le', PGF, GUARD_FC, GUARD_FC.replace("if len(self.grammar[parent_type]) == parent_index +1:", "if len(self.grammar[parent_type]) <= parent_index + 1:"), 'silent')
 add('C01', 'guard-as-minus', PGF, GUARD_FC, GUARD_FC.replace("if len(self.grammar[parent_type]) == parent_index +1:", "if parent_index == len(self.grammar[parent_type]) - 1:"), 'silent')
 add('C01', 'loader-insert-front', GIO, "                    grammar_section.append(item)", "                    grammar_section.insert(0, item)", 'fire', 'C01.R6')
-add('C01', 'time-in-next', PQF, "        queue_item = heapq.heappop(self.p_queue)", "        import time\n        self.last_pop = time.time()\n        queue_item = heapq.heappop(self.p_queue)", 'fire', 'C01.R7')
+add('C01', 'time-in-next-never-read * (ghost state since round 10)', PQF, "        queue_item = heapq.heappop(self.p_queue)", "        import time\n        self.last_pop = time.time()\n        queue_item = heapq.heappop(self.p_queue)", 'silent')
+add('C01', 'time-in-next-decides', PQF, "        queue_item = heapq.heappop(self.p_queue)", "        import time\n        if time.time() < 0:\n            return None\n        queue_item = heapq.heappop(self.p_queue)", 'fire', 'C01.R7')
 RENORM = "                        total_prob = total_prob - float(split_values[1])\n                        break"
 add('C01', 'single-pass-renormalisation', GIO, "                value = split_values[0]\n                prob = float(split_values[1]) / total_prob",
     "                value = split_values[0]\n                if value == 'M':\n                    total_prob = total_prob - float(split_values[1])\n                prob = float(split_values[1]) / total_prob", 'fire', 'C01.R8')
@@ -350,7 +351,8 @@ add('C13', 'mask-factor-dropped', SPS, "            for item in found_mask_list:
 add('C13', 'keyboard-lookup-lowercased', SPS, "cur_prob *= self.count_keyboard[len(item)][item]", "cur_prob *= self.count_keyboard[len(item)][item.lower()]", 'fire', 'C13.R3')
 add('C13', 'keyerror-gives-tiny-probability', SPS, "        except KeyError:\n            cur_prob = 0", "        except KeyError:\n            cur_prob = 1e-30", 'fire', 'C13.R3')
 add('C13', 'parse-trains-detector', SPS, "        omen_score = self.omen.parse(password)\n", "        omen_score = self.omen.parse(password)\n        self.multiword_detector.train(password)\n", 'fire', 'C13.R4')
-add('C13', 'parse-remembers-last', SPS, "        omen_score = self.omen.parse(password)\n", "        omen_score = self.omen.parse(password)\n        self.last_password = password\n", 'fire', 'C13.R4')
+add('C13', 'parse-remembers-last-never-read * (ghost state since round 10)', SPS, "        omen_score = self.omen.parse(password)\n", "        omen_score = self.omen.parse(password)\n        self.last_password = password\n", 'silent')
+add('C13', 'parse-scores-the-remembered-password', SPS, "        omen_score = self.omen.parse(password)\n", "        omen_score = self.omen.parse(getattr(self, 'last_password', password))\n        self.last_password = password\n", 'fire')
 add('C13', 'tables-swapped-at-load', SGIOF, [("_load_from_multiple_files(grammar.count_digits, config['BASE_D']", "_load_from_multiple_files(grammar.count_other, config['BASE_D']"), ("_load_from_multiple_files(grammar.count_other, config['BASE_O']", "_load_from_multiple_files(grammar.count_digits, config['BASE_O']")], None, 'fire', 'C13.R5')
 add('C08', 'no-save-on-exhaustion (pinned defect)', CSF, "                self._save_session()\n                return\n", "                return\n", 'fire', 'C08.R4')
 
@@ -371,7 +373,7 @@ add('C03', 'alpha-casefold (outside the one-to-one domain)', ALPHA, "    working
 add('C14', 'loader-cache-by-directory', GIO, [("def load_grammar(rule_name,", "_CACHE = {}\n\n\ndef load_grammar(rule_name,"), ("    grammar = {}\n\n    if not _load_terminals(ruleset_info, grammar, base_directory, config, skip_case):\n        raise Exception", "    grammar = _CACHE.setdefault(base_directory, {})\n\n    if not grammar and not _load_terminals(ruleset_info, grammar, base_directory, config, skip_case):\n        raise Exception")], None, 'fire', 'C14.R8')
 add('C14', 'base-probs-renormalised-after-load', PGF, "        self.encoding = self.ruleset_info['encoding']\n", "        self.encoding = self.ruleset_info['encoding']\n        total = sum(b['prob'] for b in self.base)\n        for b in self.base:\n            b['prob'] = b['prob'] / total\n", 'fire', 'C14.R7')
 add('C15', 'omen-levels-loop-without-quit-test', PGF, "            return self.omen_generate_guesses(markov_cracker, limit)\n\n        # If it is a capitalization mask", "            for _ in range(1):\n                num_guesses += self.omen_generate_guesses(markov_cracker, limit)\n            return num_guesses\n\n        # If it is a capitalization mask", 'fire', 'C15.R6')
-add('C15', 'guess-structure-extra-state', GSF, "    def _format_guess(self):", "    def _touch(self):\n        self.last_len = len(self.parse_tree)\n\n    def _format_guess(self):", 'fire', 'C15.R3')
+add('C15', 'guess-structure-extra-state-never-read * (ghost state since round 10)', GSF, "    def _format_guess(self):", "    def _touch(self):\n        self.last_len = len(self.parse_tree)\n\n    def _format_guess(self):", 'silent')
 add('C17', 'create-guesses-fast-path', PGF, "        if not is_honeyword:\n            return self._recursive_guesses('', pt, limit)", "        if not is_honeyword:\n            if len(pt) == 1 and pt[0][0][0] not in ('M', 'C'):\n                for g in self.grammar[pt[0][0]][pt[0][1]]['values']:\n                    self.print_guess(g)\n                return len(self.grammar[pt[0][0]][pt[0][1]]['values'])\n            return self._recursive_guesses('', pt, limit)", 'fire', 'C17.R6')
 add('C18', 'third-pass-without-prefixcount', RTF, "    # Perform third loop through training data\n    # Re-Initialize the file input to read passwords from\n    file_input = TrainerFileInput(\n                    program_info['training_file'], \n                    program_info['encoding'],\n                    program_info['prefixcount'])",
     "    # Perform third loop through training data\n    # Re-Initialize the file input to read passwords from\n    file_input = TrainerFileInput(\n                    program_info['training_file'], \n                    program_info['encoding'])", 'fire', 'C18.R6')
@@ -535,3 +537,35 @@ add('C11', 'cp-table-pruned-after-loading', OIOF, CPLOAD, CPLOAD + "        gram
 MWIN = "            program_info['multiword'],\n            program_info['encoding']\n        )"
 add('C19', 'multiword-list-read-as-count-prefixed', RTF, MWIN, "            program_info['multiword'],\n            program_info['encoding'],\n            program_info['prefixcount']\n        )", 'fire', 'C19.R9')
 add('C19', 'multiword-list-explicitly-plain *', RTF, MWIN, "            program_info['multiword'],\n            program_info['encoding'],\n            False\n        )", 'silent')
+# ---- round 10 rules ---------------------------------------------------------------------------------------------
+PSC = 'password_scorer.py'
+ERU = 'edit_rules.py'
+CFF = 'lib_trainer/config_file.py'
+TFIF = 'lib_trainer/trainer_file_input.py'
+add('C14', 'option-stored-under-the-other-key', PGU, "    program_info['skip_case'] = args.skip_case", "    program_info['skip_case'] = args.skip_brute", 'fire', 'C14.R16')
+SAVE_SC = "    save_config.set(section, 'skip_case', str(program_info['skip_case']))"
+add('C14', 'flag-saved-from-the-other-flag', PGU, SAVE_SC, "    save_config.set(section, 'skip_case', str(program_info['skip_brute']))", 'fire', 'C14.R14')
+LOAD_SC = "        program_info['skip_case'] = save_config.getboolean('rule_info','skip_case')"
+add('C08', 'flag-restored-from-the-other-key', PGU, LOAD_SC, "        program_info['skip_case'] = save_config.getboolean('rule_info','skip_brute')", 'fire', 'C08.R11')
+add('C12', 'flag-restored-from-the-other-key', PGU, LOAD_SC, "        program_info['skip_case'] = save_config.getboolean('rule_info','skip_brute')", 'fire', 'C12.R11')
+MAIN_CALL = "if __name__ == \"__main__\":\n    main()"
+add('C09', 'os-exit-after-main', PGU, MAIN_CALL, MAIN_CALL + "\n    sys.stderr.flush()\n    os._exit(0)", 'fire', 'C09.R10')
+add('C09', 'os-exit-after-flushing-stdout *', PGU, MAIN_CALL, MAIN_CALL + "\n    sys.stdout.flush()\n    sys.stderr.flush()\n    os._exit(0)", 'silent')
+ENC_ERR = "    config.set(section, \"number_of_encoding_errors\", str(file_input.num_encoding_errors))"
+add('C19', 'counter-through-misspelt-getattr', CFF, ENC_ERR, "    config.set(section, \"number_of_encoding_errors\", str(getattr(file_input, \"num_encoding_error\", 0)))", 'fire', 'C19.R11')
+add('C19', 'counter-through-getattr *', CFF, ENC_ERR, "    config.set(section, \"number_of_encoding_errors\", str(getattr(file_input, \"num_encoding_errors\", 0)))", 'silent')
+add('C19', 'control-range-one-short', TFIF, "    for invalid_hex in range (0x0,0x20):", "    for invalid_hex in range(0x00, 0x1f):", 'fire', 'C19.R12')
+add('C19', 'control-range-decimal *', TFIF, "    for invalid_hex in range (0x0,0x20):", "    for invalid_hex in range(32):", 'silent')
+NGRAM_RD = "        grammar['ngram'] = config.getint('training_settings','ngram')"
+add('C10', 'omen-ngram-key-with-fallback', OIOF, NGRAM_RD, "        grammar['ngram'] = config.getint('training_settings','ngrams', fallback = 4)", 'fire', 'C10.R20')
+add('C18', 'omen-ngram-key-with-fallback', OIOF, NGRAM_RD, "        grammar['ngram'] = config.getint('training_settings','ngrams', fallback = 4)", 'fire', 'C18.R13')
+add('C11', 'omen-ngram-read-as-text', OIOF, NGRAM_RD, "        grammar['ngram'] = config.get('training_settings','ngram')", 'fire', 'C11.R19')
+OMEN_BLOCK = "    # Initalize the OMEN scorer\n    print(\"Initializing the OMEN scorer\")\n    pw_parser.create_omen_scorer( base_directory, program_info['max_omen_level'])\n\n"
+LOAD_BLOCK = "    # Attempt to load the rules file into the pw_parser\n"
+add('C07', 'omen-scorer-before-the-grammar', PSC, [(OMEN_BLOCK, ""), (LOAD_BLOCK, OMEN_BLOCK + LOAD_BLOCK)], None, 'fire', 'C07.R18')
+add('C20', 'rule-name-reduced-to-basename', ERU, "    if not edit_rules(program_info):", "    program_info['rule'] = os.path.basename(os.path.normpath(program_info['rule']))\n    if not edit_rules(program_info):", 'fire', 'C20.R12')
+add('C16', 'walk-stops-one-group-short', PGF, "            max_index = len(self.grammar[pt_type])\n", "            max_index = len(self.grammar[pt_type]) - 1\n", 'fire', 'C16.R1')
+POP = "        queue_item = heapq.heappop(self.p_queue)\n        self.max_probability = queue_item.pt_item['prob']\n"
+add('*', 'pop-timed-on-stderr', PQF, [("import heapq\n", "import heapq\nimport sys\nimport time\n"), (POP, "        pop_started = time.perf_counter()\n" + POP + "        print('pop took', time.perf_counter() - pop_started, file=sys.stderr)\n")], None, 'silent')
+add('*', 'pop-counter-nobody-reads', PQF, [(POP, POP + "        self.num_popped_items += 1\n")], None, 'silent')
+add('C08', 'pop-counter-that-ends-the-run', PQF, [(POP, POP + "        self.num_popped_items = 1\n        if self.num_popped_items > 1000000:\n            return None\n")], None, 'fire')
